@@ -54,7 +54,7 @@ def mc_scopes(thorough):
         # the same with timestamps that may go back by up to 2 ticks (only the structural part of the property applies)
         ("summ_back", "SummSpec", dict(MaxAdds=4, Back=2)),
         # recorder: builder calls, observe / tick / upkeep / render of two names, blocks of 2 samples
-        ("rec", "RecSpec", dict(MaxObs=2, MaxNow=2)),
+        ("rec", "RecSpec", dict(MaxObs=2, MaxNow=1)),
     ]
     if thorough:
         s += [
@@ -64,6 +64,7 @@ def mc_scopes(thorough):
             ("match2_wide", "MatchSpec", dict(MaxMatchers=2, PatAlpha=[A, DOT, US, NINE], MaxPat=2)),
             ("summ_deep", "SummSpec", dict(MaxAdds=6, MaxDur=3, MaxDt=4)),
             ("summ_back_deep", "SummSpec", dict(MaxAdds=5, Back=3)),
+            ("rec2", "RecSpec", dict(MaxObs=2, MaxNow=2)),
             ("rec_deep", "RecSpec", dict(MaxObs=3, MaxNow=2)),
         ]
     return s
